@@ -28,7 +28,7 @@ template <int S> struct Runner {
     const int N = p.N;
     Sp sp = build<S, D>(p);
     const auto &C = sp.getTrajectory().getCoefficients();
-    for (int v = 0; v < 3; ++v) { Sp h = build_with_history<S, D>(p, v); ++c.st.comparisons; if (!mat_bits_equal(h.getTrajectory().getCoefficients(), C) || h.getTrajectory().getBreakpoints() != sp.getTrajectory().getBreakpoints()) { fail("coeffs-after-history", p, "a spline updated from a larger, fully queried problem differs from a fresh one"); return; } }
+    for (int v = 0; v < 4; ++v) { Sp h = build_with_history<S, D>(p, v); ++c.st.comparisons; if (!mat_bits_equal(h.getTrajectory().getCoefficients(), C) || h.getTrajectory().getBreakpoints() != sp.getTrajectory().getBreakpoints()) { fail("coeffs-after-history", p, "a spline updated from a larger, fully queried problem differs from a fresh one"); return; } }
     bool uniform = true; for (int i = 1; i < N; ++i) uniform = uniform && std::fabs(p.T[i] - p.T[0]) <= 1e-6 * p.T[0];   // equal (or nearly equal) durations: the systems are perfectly conditioned
     for (int d = 0; d < D; ++d) {
       int col = col_of_dim[d];
